@@ -317,6 +317,12 @@ b2_at_hobj!(blake2b, 504, u64);
 b2_at_hobj!(blake2s, 8, u32);
 b2_at_hobj!(blake2s, 128, u32);
 b2_at_hobj!(blake2s, 248, u32);
+b2_at_hobj!(blake2b, 9, u64);
+b2_at_hobj!(blake2b, 250, u64);
+b2_at_hobj!(blake2b, 505, u64);
+b2_at_hobj!(blake2s, 9, u32);
+b2_at_hobj!(blake2s, 100, u32);
+b2_at_hobj!(blake2s, 250, u32);
 
 struct B2bDyn(blake2b::ContextDyn, usize);
 impl HObj for B2bDyn {
@@ -438,6 +444,9 @@ pub fn new_ctx(variant: &str) -> Box<dyn HObj> {
                 384 => mk!(384),
                 504 => mk!(504),
                 512 => mk!(512),
+                9 => mk!(9),
+                250 => mk!(250),
+                505 => mk!(505),
                 b => panic!("b2bt bits {} not compiled", b),
             }
         }
@@ -454,6 +463,9 @@ pub fn new_ctx(variant: &str) -> Box<dyn HObj> {
                 224 => mk!(224),
                 248 => mk!(248),
                 256 => mk!(256),
+                9 => mk!(9),
+                100 => mk!(100),
+                250 => mk!(250),
                 b => panic!("b2st bits {} not compiled", b),
             }
         }
